@@ -390,12 +390,41 @@ def _in_loop(ins, model=None):
     return ins.block.label in _cfg.in_loop_blocks(f, exclude_headers=ex)
 
 
-def consistent_with(ap, matched, model=None):
-    """False if some assumption of the action path about a byte of the matched text contradicts `matched`"""
+def _eval_with_start(v, yy_start):
+    """integer value of an expression over the scanner's start-condition variable, None if it has another shape"""
+    if sym.is_const(v):
+        return v[1]
+    if v[0] == 'ld' and v[1] == ('g', '@yy_start'):
+        return yy_start
+    if v[0] == 'bin' and v[1] in ('sext', 'zext', 'trunc'):
+        return _eval_with_start(v[2], yy_start)
+    if v[0] == 'bin' and len(v) == 4:
+        a, b = _eval_with_start(v[2], yy_start), _eval_with_start(v[3], yy_start)
+        if a is None or b is None:
+            return None
+        ops = {'add': lambda: a + b, 'sub': lambda: a - b, 'mul': lambda: a * b, 'sdiv': lambda: int(a / b) if b else None,
+               'udiv': lambda: a // b if b else None, 'ashr': lambda: a >> b, 'lshr': lambda: a >> b, 'and': lambda: a & b}
+        try:
+            return ops[v[1]]() if v[1] in ops else None
+        except Exception:
+            return None
+    return None
+
+
+def consistent_with(ap, matched, model=None, sc=None):
+    """False if some assumption of the action path about a byte of the matched text contradicts `matched` (or, when the
+    start condition the rule fired in is given, contradicts that: an action shared by several conditions may ask YY_START)"""
     n = len(matched)
     for cn, t, ins in ap.path.assume:
         if _in_loop(ins, model):
             continue          # a loop over the text is explored to a bound; its exit test says nothing about this text
+        if sc is not None and cn[0] == 'icmp' and sym.mentions(cn, lambda x: x == ('g', '@yy_start')):
+            a, b = _eval_with_start(cn[2], 1 + 2 * sc), _eval_with_start(cn[3], 1 + 2 * sc)
+            if a is not None and b is not None:
+                r = {'eq': a == b, 'ne': a != b, 'slt': a < b, 'sle': a <= b, 'sgt': a > b, 'sge': a >= b, 'ult': a < b, 'ugt': a > b}.get(cn[1])
+                if r is not None and r != t:
+                    return False
+            continue
         if cn[0] == 'icmp' and sym.is_const(cn[3]):
             k = _yytext_index(cn[2])
             if k is None:
@@ -419,11 +448,13 @@ def consistent_with(ap, matched, model=None):
     return True
 
 
-def classes_for(model, rule, matched):
-    """classes of the action paths of `rule` that are possible when it matched exactly `matched`"""
+def classes_for(model, rule, matched, sc=None):
+    """classes of the action paths of `rule` that are possible when it matched exactly `matched` (in start condition sc)"""
     memo = model.__dict__.setdefault('_classes_for', {})
-    key = (rule, bytes(matched))
+    if isinstance(sc, str):
+        sc = model.dfa.sc.get(sc)
+    key = (rule, bytes(matched), sc)
     if key not in memo:
-        aps = [ap for ap in model.actions[rule] if consistent_with(ap, matched, model)]
+        aps = [ap for ap in model.actions[rule] if consistent_with(ap, matched, model, sc)]
         memo[key] = sorted(set(classify_path(a, matched) for a in aps))
     return memo[key]
